@@ -8,7 +8,7 @@ from gherkin.stream.id_generator import IdGenerator
 from kit import astgen, specparse, pdrive
 from harness import doc as D
 
-POOL = param("pool", ["steps", "BAD", "outline", "titles"])
+POOL = param("pool", ["steps", "BAD", "outline", "titles", "BAD11"])
 HOLE = param("hole", "x")
 FIX = param("fix", {})
 STOP = bool(param("stop", False))
@@ -19,10 +19,15 @@ STEP_TYPES = ("Unknown", "Context", "Action", "Outcome")
 
 def source_text(shape, a, start):
     """-> (text, expected AST or None, expected errors or None, writer)"""
-    if shape == "BAD":
-        # a rejected source: an unexpected line after a step, and the document ends inside a data table
+    if shape in ("BAD", "BAD11"):
+        # a rejected source: an unexpected line after a step, and the document ends inside a data table;
+        # BAD11 starts with the same lines and goes on with enough faults to hit the eleven-error limit
         lines = ["Feature: f\n", "  Scenario: s\n", "    Given x\n", "  junk " + a + "\n", "    | t |\n"]
         kinds = [pdrive.FEATURE, pdrive.SCENARIO, pdrive.STEP, pdrive.OTHER, pdrive.ROW1]
+        if shape == "BAD11":
+            for i in range(11):
+                lines.append("  junk%d\n" % i)
+                kinds.append(pdrive.OTHER)
         sp = specparse.spec_parse(kinds, False)
         errs = []
         for (cls, line, expd) in sp["errors"]:
